@@ -254,7 +254,7 @@ class CircuitTemplate(AbstractBaseTemplate):
         # either create new instance with updates or store updates on current template instance
         if not in_place:
             return self.__class__(name=name, path=path, description=description, circuits=circuits, nodes=nodes,
-                                  edges=edges)
+                                  edges=edges, populations=self.populations, connections=self.connections)
         self.name = name
         self.path = path
         self.__doc__ = description
